@@ -20,7 +20,7 @@ Open Scope Z_scope.
    interrupts is always within the range. *)
 Theorem C34_gap : forall g t n,
   timer_ok g t -> t_enabled t = true ->
-  exists l t', poll_n g t n = TOk (l, t') /\
+  exists l t', timer_poll_n g t n = TOk (l, t') /\
                all_within (range_lo (t_range t)) (range_hi (t_range t)) (gaps l).
 Proof. exact gap_within. Qed.
 Print Assumptions C34_gap.
@@ -28,7 +28,7 @@ Print Assumptions C34_gap.
 (* ... exactly c for an exact count c (c = 0 included: then every poll interrupts). *)
 Theorem C34_gap_exact : forall g t n c,
   timer_ok g t -> t_enabled t = true -> range_lo (t_range t) = c -> range_hi (t_range t) = c ->
-  exists l t', poll_n g t n = TOk (l, t') /\ Forall (fun x => x = c) (gaps l).
+  exists l t', timer_poll_n g t n = TOk (l, t') /\ Forall (fun x => x = c) (gaps l).
 Proof. exact gap_exact. Qed.
 Print Assumptions C34_gap_exact.
 
@@ -36,7 +36,7 @@ Print Assumptions C34_gap_exact.
    without an interrupt, then one with, and one draw consumed.  So interrupts keep coming. *)
 Theorem C34_gap_is_draw : forall g t,
   timer_ok g t -> t_enabled t = true -> t_time t = 0 ->
-  poll_n g t (S (Z.to_nat (g (t_drawn t)))) =
+  timer_poll_n g t (S (Z.to_nat (g (t_drawn t)))) =
   TOk (repeat false (Z.to_nat (g (t_drawn t))) ++ [true], with_time t 0 (S (t_drawn t))).
 Proof. exact gap_is_draw. Qed.
 Print Assumptions C34_gap_is_draw.
@@ -45,7 +45,7 @@ Print Assumptions C34_gap_is_draw.
    (at most hi polls pass before the first interrupt). *)
 Theorem C34_first : forall g t,
   timer_ok g t -> t_enabled t = true -> 0 <= t_time t <= range_hi (t_range t) ->
-  exists l t', poll_n g t (Z.to_nat (range_hi (t_range t) + 1)) = TOk (l, t') /\
+  exists l t', timer_poll_n g t (Z.to_nat (range_hi (t_range t) + 1)) = TOk (l, t') /\
                exists k, first_fire l = Some k /\ 0 <= k <= range_hi (t_range t).
 Proof. exact first_within. Qed.
 Print Assumptions C34_first.
@@ -55,15 +55,15 @@ Print Assumptions C34_first.
    the timer enabled, the next interrupt is at most hi + 1 polls away. *)
 Theorem C34_first_after_enable_or_reset : forall g s e v p t0 ops,
   timer_new g s e v p = TOk t0 -> 0 <= range_lo (t_range t0) -> draws_ok g (t_range t0) ->
-  Forall keeps_range ops -> t_enabled (run_state g t0 ops) = true ->
-  exists l t', poll_n g (run_state g t0 ops) (Z.to_nat (range_hi (t_range t0) + 1)) = TOk (l, t') /\
+  Forall keeps_range ops -> t_enabled (timer_run_state g t0 ops) = true ->
+  exists l t', timer_poll_n g (timer_run_state g t0 ops) (Z.to_nat (range_hi (t_range t0) + 1)) = TOk (l, t') /\
                exists k, first_fire l = Some k /\ 0 <= k <= range_hi (t_range t0).
 Proof. exact first_after_history. Qed.
 Print Assumptions C34_first_after_enable_or_reset.
 
 (* A disabled timer never raises an interrupt, whatever else is done to it (any draws at all). *)
 Theorem C34_disabled : forall g ops t,
-  t_enabled t = false -> ~ In OEnable ops -> Forall quiet (run g t ops).
+  t_enabled t = false -> ~ In OEnable ops -> Forall quiet (timer_run g t ops).
 Proof. exact disabled_quiet. Qed.
 Print Assumptions C34_disabled.
 
@@ -96,8 +96,8 @@ Print Assumptions C34_unrepaired_exact0_silent.
 Example C34_ex_hyp :
   let g := fun k => match k with 0%nat => 2 | 1%nat => 0 | 2%nat => 1 | _ => 2 end in
   exists t0, timer_new g (BIncl 0) (BExcl 3) 129 4 = TOk t0 /\ timer_ok g t0 /\
-    t_enabled (run_state g t0 [OEnable]) = true /\
-    poll_n g (run_state g t0 [OEnable]) 9%nat =
+    t_enabled (timer_run_state g t0 [OEnable]) = true /\
+    timer_poll_n g (timer_run_state g t0 [OEnable]) 9%nat =
       TOk ([false; true; true; false; true; false; false; true; false], mk_timer (mk_srange 0 3 false) 2 129 4 true 5) /\
     gaps [false; true; true; false; true; false; false; true; false] = [0; 1; 2].
 Proof.
